@@ -21,7 +21,7 @@ from .logic import Logic
 from .exprs import VExpr, VESeq, VDist
 from . import exprs
 from .values import (freeze, NONE, OutOfSubset, V, VBool, VComp, VDict, VFam, VFunc, VGraph, VInt, VModule, VNode, VNone,
-                     VNx, VObj, VOpaque, VPos, VSeq, VSet, VStr, VTuple)
+                     VNx, VObj, VOpaque, VPos, VSeq, VSet, VStr, VTuple, VFStr, VAttrs)
 
 MAX_INLINE_DEPTH = 9
 MAX_PATHS = 400
@@ -820,6 +820,7 @@ class Exec:
                         elif isinstance(m, VNx):
                             m._saved = outer[id(m)][0] if tr else state
                             m._N, m._E = _false_pred, _false_pred
+                            m.nattr_delta = []
                         elif isinstance(m, VDict):
                             m.dom = _false_pred
                     env.clear()
@@ -831,10 +832,10 @@ class Exec:
                 n0 = len(base)
                 self.binders.extend(consts)
                 try:
-                    self._explore_body(run_once, base, muts)
+                    results_here = self._explore_body(run_once, base, muts)
                 finally:
                     del self.binders[len(self.binders) - len(consts):]
-                for rec in self._body_results:
+                for rec in results_here:
                     kind, pc, payload, deltas, rebinds, reads = rec
                     all_reads |= reads
                     if rebinds:
@@ -917,7 +918,7 @@ class Exec:
 
     def _explore_body(self, run_once, base_pc, muts):
         """Nested exploration of a loop body; harvests per-path deltas."""
-        self._body_results = []
+        body_results = []      # local: a nested loop inside the body runs its own exploration
         env = self.frames[-1].env
         env_before = dict(env)
         saved = (self.prefix, self.pos, self.trace, self.pc, self._dup)
@@ -950,20 +951,21 @@ class Exec:
                         if isinstance(m, VSet):
                             deltas[id(m)] = None if m._pred is _false_pred else (m._pred, list(getattr(m, "appended", [])))
                         elif isinstance(m, VNx):
-                            deltas[id(m)] = None if (m._N is _false_pred and m._E is _false_pred) else (m._N, m._E)
+                            nd = list(getattr(m, "nattr_delta", []))
+                            deltas[id(m)] = None if (m._N is _false_pred and m._E is _false_pred and not nd) else (m._N, m._E, nd)
                         elif isinstance(m, VDict):
                             deltas[id(m)] = None if m.dom is _false_pred else (m.dom, m.val)
                     rebinds = {k for k in env_before if k != "__parent__" and env.get(k) is not env_before[k]}
                     # the loop target itself may shadow an outer name; that is a rebind only if read later, be strict
                     reads = {id(m) for m in muts if m.read_in_loop}
-                    self._body_results.append((kind, list(self.pc), payload, deltas, rebinds - self._loop_targets, reads))
+                    body_results.append((kind, list(self.pc), payload, deltas, rebinds - self._loop_targets, reads))
                 for i in range(len(prefix), len(self.trace)):
                     d, n = self.trace[i]
                     for alt in range(d + 1, n):
                         stack.append([t[0] for t in self.trace[:i]] + [alt])
         finally:
             self.prefix, self.pos, self.trace, self.pc, self._dup = saved
-        return []
+        return body_results
 
     _loop_targets: set = set()
 
@@ -995,13 +997,30 @@ class Exec:
             m.add_pred(add)
         elif isinstance(m, VNx):
             def addN(y, contrib=contrib):
-                return L.Or(*[bind(c, lambda: L.And(g, *pcx, dN(y))) for c, g, pcx, (dN, dE) in contrib])
+                return L.Or(*[bind(c, lambda: L.And(g, *pcx, dN(y))) for c, g, pcx, (dN, dE, nd) in contrib])
 
             def addE(a, b, contrib=contrib):
-                return L.Or(*[bind(c, lambda: L.And(g, *pcx, dE(a, b))) for c, g, pcx, (dN, dE) in contrib])
+                return L.Or(*[bind(c, lambda: L.And(g, *pcx, dE(a, b))) for c, g, pcx, (dN, dE, nd) in contrib])
             oldN, oldE = m._N, m._E
             m._N = lambda y: L.Or(oldN(y), addN(y))
             m._E = lambda a, b: L.Or(oldE(a, b), addE(a, b))
+            # node attributes set in the body (constant values): has-attribute grows, the value is overridden on those nodes
+            tags = {}
+            for c, g, pcx, (dN, dE, nd) in contrib:
+                for tag, node_t, value in nd:
+                    tags.setdefault(tag, []).append((c, g, pcx, node_t, value))
+            for tag, items in tags.items():
+                if len({v for _, _, _, _, v in items}) != 1:
+                    raise OutOfSubset("a loop sets one node attribute to different constants")
+                value = items[0][4]
+                hit = lambda x, items=items: L.Or(*[bind(c, lambda: L.And(g, *pcx, x == node_t)) for c, g, pcx, node_t, _ in items])
+                old = m.nattrs.get(tag)
+                if old is None:
+                    m.nattrs[tag] = (hit, lambda x, value=value: z3.BoolVal(value))
+                else:
+                    oh, ov = old
+                    m.nattrs[tag] = (lambda x, oh=oh, hit=hit: L.Or(oh(x), hit(x)),
+                                     lambda x, ov=ov, hit=hit, value=value: z3.If(hit(x), z3.BoolVal(value), ov(x)))
         else:
             raise OutOfSubset("dict accumulation in a loop")
 
@@ -1057,6 +1076,9 @@ class Exec:
         if isinstance(e, ast.Dict):
             if not e.keys:
                 return VDict(_false_pred, None)
+            ks = [self.ev(k) if k is not None else None for k in e.keys]
+            if all(isinstance(k, VStr) for k in ks):
+                return VObj("dict", {k.s: self.ev(v) for k, v in zip(ks, e.values)})
             raise OutOfSubset("dict display")
         if isinstance(e, ast.BoolOp):
             return self.boolop(e)
@@ -1093,7 +1115,18 @@ class Exec:
             fi = FuncInfo(self.frames[-1].module, "<lambda>", _lambda_as_def(e))
             return VFunc("closure", fi, extra=self.frames[-1].env)
         if isinstance(e, ast.JoinedStr):
-            return VOpaque("fstring")
+            parts = []
+            for v in e.values:
+                if isinstance(v, ast.Constant):
+                    parts.append(v.value)
+                elif isinstance(v, ast.FormattedValue) and v.format_spec is None and v.conversion == -1:
+                    try:
+                        parts.append(self.ev(v.value))
+                    except OutOfSubset:
+                        return VOpaque("fstring")
+                else:
+                    return VOpaque("fstring")
+            return VFStr(parts)
         if isinstance(e, ast.Starred):
             raise OutOfSubset("starred expression")
         raise OutOfSubset(f"expression {type(e).__name__}")
